@@ -280,6 +280,18 @@ class Sched:
         except Exception:
             return False
 
+    def _supervising(self):
+        """a helper was started for the request that is being worked on: until that request is over the program may be
+        running its own deadlines against the helper (also after the helper has ended: a watchdog `join(timeout)` on
+        the thread that supervises it), and a stall of the whole process would turn them into timeouts on a tree where
+        the property holds (round 4: legit/B-asyncio-loop-thread, `not-recovered` after a 10.8 s stall)"""
+        try:
+            w = self.w
+            cur = getattr(w, "cur_req", None)
+            return any(h._req == cur and not getattr(h, "_abandoned", False) for h in w.helpers)
+        except Exception:
+            return False
+
     def _env_ready(self):
         s = self.session
         if s is None:
@@ -298,7 +310,7 @@ class Sched:
             options = list(runnable)
             if env:
                 options.append("ENV")
-            if timers and (runnable or env) and not self._helper_alive():
+            if timers and (runnable or env) and not self._helper_alive() and not self._supervising():
                 # stalling the whole process while a helper runs against the SUT's own timeout would turn a timeout
                 # into a success (or the reverse) on a tree where the property holds; helper timing has its own faults
                 options.append("TIME")
